@@ -221,13 +221,13 @@ class World:
     def nbf_cart(basis):
         return sum(((s.angmom + 1) * (s.angmom + 2)) // 2 * s.coeffs.shape[1] for s in basis)
 
-    def points(self, d, reuse, rs, max_n=8):
+    def points(self, d, reuse, rs, max_n=8, min_n=1):
         def mk():
-            k = rs.randint(1, min(4, max_n))
+            k = rs.randint(min_n, max_n) if min_n > 1 else rs.randint(1, min(4, max_n))
             return Entry(np.array([[rs.uniform(-2, 2) for _ in range(3)] for _ in range(k)]), "coords")
 
         def pred(e):
-            return e.role == "coords" and e.obj.ndim == 2 and 0 < e.obj.shape[0] <= max_n
+            return e.role == "coords" and e.obj.ndim == 2 and min_n <= e.obj.shape[0] <= max_n and e.obj.shape[0] > 0
 
         return self.pick(self.arrays, d, pred, reuse, mk).obj
 
@@ -235,6 +235,22 @@ class World:
 # (max number of Cartesian basis functions, max angular momentum, max number of points) per query: the
 # Python-level cost of the derivative-heavy evaluations grows quickly and every faulted query is run
 # several times under a line tracer.
+# occasionally these vectorised functions get a large grid / many functions / high angular momentum: code
+# paths that switch on size (chunking, pre-allocation) are legal places for the property to break
+BIG_OK = {
+    "evaluate_basis": (120, 5, 400),
+    "evaluate_deriv_basis": (80, 5, 300),
+    "evaluate_density": (80, 5, 400),
+    "evaluate_density_using_evaluated_orbs": (80, 5, 400),
+    "overlap_integral": (120, 6, 8),
+    "kinetic_energy_integral": (80, 5, 8),
+    "overlap_integral_asymmetric": (80, 5, 8),
+    "moment_integral": (50, 4, 8),
+    "evaluate_density_gradient": (40, 4, 200),
+    "electrostatic_potential": (30, 3, 60),
+    "point_charge_integral": (30, 3, 40),
+}
+
 COST_CAPS = {
     "evaluate_ehrenfest_hessian": (6, 1, 1),
     "evaluate_ehrenfest_force": (10, 2, 2),
@@ -475,8 +491,20 @@ def r_make_contr(w, op):
         w.probe("molecule_with_repeated_element")
     cs = op["coords"]
     rs = random.Random(cs["seed"])
-    coords = w.array("coords", (n, 3), cs["d"], cs["reuse"],
-                     lambda: np.array([[rs.uniform(-2, 2) * cs["scale"] for _ in range(3)] for _ in range(n)]).reshape(n, 3))
+    def mk_coords():
+        a = np.array([[rs.uniform(-2, 2) * cs["scale"] for _ in range(3)] for _ in range(n)]).reshape(n, 3)
+        lay = cs.get("layout", "c")
+        if lay == "f":
+            return np.asfortranarray(a)
+        if lay == "strided":
+            big = np.zeros((2 * n, 3))
+            big[::2] = a
+            return big[::2]
+        if lay == "int":
+            return np.rint(a).astype(int)
+        return a
+
+    coords = w.array("coords", (n, 3), cs["d"], cs["reuse"], mk_coords)
     nsh = sum(len(bd[a]) for a in atoms)
     rc = random.Random(ctspec["seed"])
     names = ["c", "p"] if ctspec["short"] else ["cartesian", "spherical"]
@@ -513,8 +541,8 @@ def r_make_contr(w, op):
     def expect(value):
         if not valid:
             return None
-        if not isinstance(value, tuple):
-            return f"make_contractions returned {type(value).__name__}, not tuple"
+        if not isinstance(value, (tuple, list)):
+            return f"make_contractions returned {type(value).__name__}, not a sequence of shells"
         if len(value) != len(exp_rows):
             return f"{len(value)} shells returned, {len(exp_rows)} expected"
         for k, (sh, (l, ex, co, xyz, ctn, ic)) in enumerate(zip(value, exp_rows)):
@@ -534,7 +562,7 @@ def r_make_contr(w, op):
         return None
 
     def post(value):
-        if isinstance(value, tuple):
+        if isinstance(value, (tuple, list)):
             for sh in value:
                 w.shells.append(Entry(sh, meta={"cls": "base"}))
             if 0 < len(value):
@@ -578,8 +606,8 @@ def r_from_pyscf(w, op):
     def expect(value):
         if not valid:
             return None
-        if not isinstance(value, tuple):
-            return f"from_pyscf returned {type(value).__name__}, not tuple"
+        if not isinstance(value, (tuple, list)):
+            return f"from_pyscf returned {type(value).__name__}, not a sequence of shells"
         if len(value) != len(exp_rows):
             return f"{len(value)} shells returned, {len(exp_rows)} expected"
         for k, (sh, (l, ex, co, xyz, ctn)) in enumerate(zip(value, exp_rows)):
@@ -592,7 +620,7 @@ def r_from_pyscf(w, op):
         return None
 
     def post(value):
-        if isinstance(value, tuple):
+        if isinstance(value, (tuple, list)):
             for sh in value:
                 w.shells.append(Entry(sh, meta={"cls": "pyscf"}))
             if len(value):
@@ -913,6 +941,8 @@ def r_query(w, op):
         caps = (9, 1, 2)
     else:
         caps = COST_CAPS.get(fn_name, (40, 4, 8))
+    if op.get("big") and fn_name in BIG_OK:
+        caps = BIG_OK[fn_name]
     max_pts = caps[2]
     basis = w.basis(d[0], True, max_nbf=caps[0], max_l=caps[1])
     nbf = w.nbf(basis)
@@ -930,8 +960,10 @@ def r_query(w, op):
     def dm_for(n, idx):
         return w.array("dm", (n, n), d[idx], reuse(), lambda: _mk_dm(rs, n, P["dm"]))
 
+    big = bool(op.get("big")) and fn_name in BIG_OK
+
     def pts(idx):
-        return w.points(d[idx], reuse(), rs, max_n=max_pts)
+        return w.points(d[idx], reuse(), rs, max_n=max_pts, min_n=50 if (big and max_pts >= 50) else 1)
 
     def charges_for(n, idx):
         return w.array("charges", (n,), d[idx], reuse(), lambda: _mk_charges(rs, n, P["charges"]))
